@@ -13,7 +13,7 @@
                                       secondary alpha.
    See Base/PairCtlExp.v, GenAgreePairTac.v. *)
 From Coq Require Import QArith ZArith List Bool Lia Arith String.
-From CC Require Import Base.XQ Base.ListX Base.PairCtlExp Model.Pairwise Gen.PairwiseSrc.
+From CC Require Import Base.XQ Base.ListX Base.PairCtlExp Model.Pairwise Model.PairwiseLegacy Gen.PairwiseSrc.
 Import ListNotations.
 Local Close Scope Q_scope.
 Local Open Scope string_scope.
@@ -262,3 +262,40 @@ Lemma gen_CubePartition__alpha_projections :
 Proof.
   cunfold_srcs; split; first [reflexivity | exact I].
 Qed.
+
+(* ---- measures/pairwise_significance.py PairwiseSignificance ------------------------------------ *)
+(* every aggregate is, for each displayed column c in order, THAT member of the column object
+   constructed with (the slice, c, the alpha, the only_larger flag) of the PairwiseSignificance object;
+   the classmethod constructs that object from (slice_, alpha, only_larger) in this order *)
+Definition col_args : list lwarg := [LSlice; LCol; LAlpha; LOnlyLarger].
+
+Ltac gen_lw :=
+  cunfold_srcs;
+  lazymatch goal with
+  | |- True => exact I
+  | _ => intros A E; reflexivity
+  end.
+
+Lemma gen_PairwiseSignificance__scale_mean_pairwise_indices :
+  match src_PairwiseSignificance__scale_mean_pairwise_indices with
+  | Some w => forall A (E : lwenv A),
+      lwev E w = Some (per_column (lw_ncols E) (lw_member E "scale_mean_pairwise_indices" col_args))
+  | None => True
+  end.
+Proof. gen_lw. Qed.
+
+Lemma gen_PairwiseSignificance_summary_pairwise_indices :
+  match src_PairwiseSignificance_summary_pairwise_indices with
+  | Some w => forall A (E : lwenv A),
+      lwev E w = Some (per_column (lw_ncols E) (lw_member E "summary_pairwise_indices" col_args))
+  | None => True
+  end.
+Proof. gen_lw. Qed.
+
+Lemma gen_PairwiseSignificance_scale_mean_pairwise_indices :
+  match src_PairwiseSignificance_scale_mean_pairwise_indices with
+  | Some w => forall A (E : lwenv A),
+      lwev E w = Some (per_column (lw_ncols E) (lw_member E "scale_mean_pairwise_indices" col_args))
+  | None => True
+  end.
+Proof. gen_lw. Qed.
